@@ -31,6 +31,7 @@ class Row(object):
     def __init__(self, func, h, args, model, text):
         self.func, self.h, self.args, self.model, self.text = func, h, list(args), model, text
         self.id = None
+        self.doc = None          # documented outcome as a Gallina term (when not derived from the arguments in doc_term)
 
     def line(self):
         return "ct %s %s %d %s" % (self.id, self.func, self.h, " ".join(str(x) for x in self.args))
@@ -54,6 +55,21 @@ def b(x):
 
 def dlist(vals):
     return "[" + "; ".join("None" if v == -999999 else "(Some ((%d) # 1))" % v for v in vals) + "]"
+
+
+NAN, PINF, NINF = -999999, -999998, -999997
+
+
+def xv(v, den=1):
+    return "XNaN" if v == NAN else "(XInf false)" if v == PINF else "(XInf true)" if v == NINF else "(XFin ((%d) # %d))" % (v, den)
+
+
+def xlist(vals, den=1):
+    return "[" + "; ".join(xv(v, den) for v in vals) + "]"
+
+
+def fin(v):
+    return v not in (NAN, PINF, NINF)
 
 
 NSUM = "(mknsum 0 2 2 3 %s false (mknew [] 0 0 0 None))"
@@ -91,76 +107,94 @@ def gen_rows(ctx, info):
         rows.append(Row("set_iter", h, [5], 'crun (env_int %s "iterations" 5) gen_contract_vnacal_new_set_iteration_limit' % HND[h],
                         "vnacal_new_set_iteration_limit"))
         rows.append(Row("set_z0", h, [], 'crun (env_int %s "unused" 0) gen_contract_vnacal_new_set_z0' % HND[h], "vnacal_new_set_z0"))
-    # ---- set_frequency_vector
+    # ---- set_frequency_vector (vectors of doubles with NaN and infinities: env_set_fv_x / doc_set_fv)
     fvs = [(1000, 2000, 3000), (0, 1, 2), (-1, 2000, 3000), (1000, 1000, 3000), (1000, 3000, 2000), (3000, 2000, 1000),
-           (1000, 2000, -999999), (-999999, 2000, 3000), (1000, 2000, 2000), (1000, -5, 3000)]
+           (1000, 2000, 2000), (1000, -5, 3000)]
+    for sp in (NAN, PINF, NINF):
+        fvs += [(sp, 2000, 3000), (1000, sp, 3000), (1000, 2000, sp)]
+    def fv_row(state, fvalid, fv, rbad, note=""):
+        rows.append(Row("set_fv", 0, [state, 0] + list(fv),
+                        "crun (env_set_fv_x HOk %s (Some %s) %s) gen_contract_vnacal_new_set_frequency_vector"
+                        % (NSUM % b(fvalid), xlist(fv), b(rbad)), "vnacal_new_set_frequency_vector(%s)%s" % (fv, note)))
+        rows[-1].doc = "doc_set_fv %s (Some %s) %s" % (NSUM % b(fvalid), xlist(fv), b(rbad))
     for fvalid in (0, 1):
         for fv in fvs:
-            rows.append(Row("set_fv", 0, [fvalid, 0] + list(fv),
-                            "crun (env_set_fv HOk %s (Some %s) false) gen_contract_vnacal_new_set_frequency_vector"
-                            % (NSUM % b(fvalid), dlist(fv)), "vnacal_new_set_frequency_vector(%s)" % (fv,)))
+            fv_row(fvalid, fvalid, fv, False)
         rows.append(Row("set_fv", 0, [fvalid, 1, 0, 0, 0],
-                        "crun (env_set_fv HOk %s None false) gen_contract_vnacal_new_set_frequency_vector" % (NSUM % b(fvalid)),
+                        "crun (env_set_fv_x HOk %s None false) gen_contract_vnacal_new_set_frequency_vector" % (NSUM % b(fvalid)),
                         "vnacal_new_set_frequency_vector(NULL)"))
+        rows[-1].doc = "doc_set_fv %s None false" % (NSUM % b(fvalid))
     # a vector parameter with the range 1000..3000 MHz is in use by a standard: _vnacal_new_check_all_frequency_ranges decides
     # (atom:parameter_ranges_bad; the frequencies keep 5 MHz distance from (1 +- 1/100) x end of the parameter's range)
     for fv in [(1000, 2000, 3000), (995, 2000, 3005), (500, 2000, 3000), (1000, 2000, 4000), (100, 200, 300), (1500, 2000, 2500),
-               (980, 2000, 3000), (1000, 2000, 3040), (3000, 2000, 1000), (-999999, 2000, 3000), (1200, 1200, 3000)]:
-        bad = fv[0] != -999999 and (1000 > fv[0] * 1.01 or 3000 < fv[2] * 0.99)
-        rows.append(Row("set_fv", 0, [2, 0] + list(fv),
-                        "crun (env_set_fv HOk %s (Some %s) %s) gen_contract_vnacal_new_set_frequency_vector"
-                        % (NSUM % "false", dlist(fv), b(bad)),
-                        "vnacal_new_set_frequency_vector(%s) with a vector parameter 1000..3000 MHz in use" % (fv,)))
+               (980, 2000, 3000), (1000, 2000, 3040), (3000, 2000, 1000), (NAN, 2000, 3000), (1200, 1200, 3000), (1000, 2000, PINF)]:
+        f_lo, f_hi = [float("nan") if v == NAN else float("inf") if v == PINF else float("-inf") if v == NINF else float(v) for v in (fv[0], fv[2])]
+        bad = 1000 > f_lo * 1.01 or 3000 < f_hi * 0.99
+        fv_row(2, 0, fv, bad, " with a vector parameter 1000..3000 MHz in use")
     for h in (1, 2):
         rows.append(Row("set_fv", h, [1, 0, 1000, 2000, 3000],
-                        "crun (env_set_fv %s %s (Some %s) false) gen_contract_vnacal_new_set_frequency_vector"
-                        % (HND[h], NSUM % "true", dlist((1000, 2000, 3000))), "vnacal_new_set_frequency_vector"))
-    # ---- set_m_error
+                        "crun (env_set_fv_x %s %s (Some %s) false) gen_contract_vnacal_new_set_frequency_vector"
+                        % (HND[h], NSUM % "true", xlist((1000, 2000, 3000))), "vnacal_new_set_frequency_vector"))
+    # ---- set_m_error (env_set_m_error_x; documented column: doc_set_m_error, written from vnacal_new(3))
+    def xo(l, den):
+        return "None" if l is None else "(Some %s)" % xlist(l, den)
+    def me_row(st, t, fvalid, n, fvl, nfl, trl, s16=False, note=""):
+        # the harness vectors: three entries; frequency_vector[2] = [1] + 1000 MHz, sigma[2] = sigma[1] (special values repeat)
+        used = (list(fvl) + [fvl[1] + 1000 if fin(fvl[1]) else fvl[1]])[:max(0, min(n, 3))] if fvl else None
+        narrow = bool(used) and all(fin(x) for x in (used[0], used[-1])) and (used[0] > 1010 or used[-1] < 2970)
+        if used and not all(fin(x) for x in (used[0], used[-1])):
+            narrow = (used[0] == PINF or (fin(used[0]) and used[0] > 1010)) or (used[-1] == NINF or (fin(used[-1]) and used[-1] < 2970))
+        cnt = max(0, min(n, 3))
+        nfu = (nfl + [nfl[-1]])[:cnt] if nfl else None
+        tru = (trl + [trl[-1]])[:cnt] if trl else None
+        sm = "(mknsum %d 2 2 3 %s false (mknew [] 0 0 0 None))" % (t, b(fvalid))
+        args = "(mkmerrx %s %s %s %s %s %s)" % (z(n), xo(used, 1), xo(nfu, 1000), xo(tru, 1000), b(narrow), b(s16))
+        fa = [1] + (list(fvl) + [0])[:2] if fvl else [0, 0, 0]
+        na = [1] + (list(nfl) + [nfl[-1]])[:2] if nfl else [0, 0, 0]
+        ta = [1] + (list(trl) + [trl[-1]])[:2] if trl else [0, 0, 0]
+        rows.append(Row("set_m_error", 0, [st, n] + fa + na + ta,
+                        "crun (env_set_m_error_x HOk %s %s) gen_contract_vnacal_new_set_m_error" % (sm, args),
+                        "vnacal_new_set_m_error(frequencies=%d, frequency_vector=%s MHz, sigma_nf=%s/1000, sigma_tr=%s/1000)%s"
+                        % (n, fvl, nfl, trl, note)))
+        rows[-1].doc = "doc_set_m_error %s %s" % (sm, args)
     me = []
     for fvalid in (0, 1):
         for n in (-1, 0, 1, 2, 3):
-            for fvg in ((0, 0, 0), (1, 900, 3100), (1, 3100, 900), (1, 1500, 3100), (1, 900, 2500), (1, 2000, 2000)):
-                for nfg in ((0, 0, 0), (1, 5, 7), (1, 5, 0), (1, -1, 5)):
-                    for trg in ((0, 0, 0), (1, 1, 2), (1, 1, -1), (1, 0, 0)):
-                        me.append((fvalid, n, fvg, nfg, trg))
+            for fvl in (None, [900, 3100], [3100, 900], [1500, 3100], [900, 2500], [2000, 2000]):
+                for nfl in (None, [5, 7], [5, 0], [-1, 5]):
+                    for trl in (None, [1, 2], [1, -1], [0, 0]):
+                        me.append((fvalid, n, fvl, nfl, trl))
     if not thorough:
-        keep = [m for m in me if m[1] in (0, 2) and m[2][1] in (0, 900) and m[2][2] in (0, 3100)][::3]
+        keep = [m for m in me if m[1] in (0, 1, 2) and m[2] in (None, [900, 3100], [1500, 3100])][::3]
         me = keep + rng.sample(me, 120)
-    for fvalid, n, fvg, nfg, trg in me:
-        if n == 3 and fvg[0]:
-            continue        # the harness frequency vector has two entries; n = 3 goes with frequency_vector = NULL only
-        cnt = max(0, min(n, 3))
-        fvl = [fvg[1], fvg[2]][:cnt] if fvg[0] else None
-        nfl = [nfg[1], nfg[2], nfg[2]][:cnt] if nfg[0] else None
-        trl = [trg[1], trg[2], trg[2]][:cnt] if trg[0] else None
-        narrow = bool(fvl) and (fvl[0] > 1010 or fvl[-1] < 2970)
-        def ol(l, den):
-            return "None" if l is None else "(Some [" + "; ".join("(Some ((%d) # %d))" % (v, den) for v in l) + "])"
-        model = ("crun (env_set_m_error HOk %s (mkmerr %s %s %s %s %s false)) gen_contract_vnacal_new_set_m_error"
-                 % (NSUM % b(fvalid), z(n), ol(fvl, 1), ol(nfl, 1000), ol(trl, 1000), b(narrow)))
-        rows.append(Row("set_m_error", 0, [fvalid, n, fvg[0], fvg[1], fvg[2], nfg[0], nfg[1], nfg[2], trg[0], trg[1], trg[2]], model,
-                        "vnacal_new_set_m_error(frequencies=%d, frequency_vector=%s MHz, sigma_nf=%s/1000, sigma_tr=%s/1000), frequency "
-                        "vector %s" % (n, fvl, nfl, trl, "set" if fvalid else "not set")))
+    for fvalid, n, fvl, nfl, trl in me:
+        me_row(fvalid, 0, fvalid, n, fvl, nfl, trl, note=", frequency vector %s" % ("set" if fvalid else "not set"))
+    # NaN, infinities and negative values in every position of the three vectors; frequencies = 1 with a frequency vector
+    # the manual says is not used
+    for sp in (NAN, PINF, NINF, -5):
+        for n in (1, 2):
+            me_row(1, 0, 1, n, [sp, 3100], [5, 7], None)
+            me_row(1, 0, 1, n, [900, sp], [5, 7], None)
+            me_row(1, 0, 1, n, [900, 3100], [sp, 7], [1, 2])
+            me_row(1, 0, 1, n, [900, 3100], [5, sp], [1, 2])
+            me_row(1, 0, 1, n, [900, 3100], [5, 7], [sp, 2])
+            me_row(1, 0, 1, n, [900, 3100], [5, 7], [1, sp])
+            me_row(1, 0, 1, n, None, [sp, 7], None)
+    for sp in (NAN, PINF, NINF, -5):
+        me_row(1, 0, 1, 3, [sp, 2000], [5, 7], None)           # {NaN, 2e9, 3e9}: aborted in _vnacommon_spline_eval before DC92
+        me_row(1, 0, 1, 3, [900, sp], [5, 7], None)
+    for fv1 in ([2000, 0], [500, 0], [4000, 0], [900, 3100]):
+        me_row(1, 0, 1, 1, fv1, [5, 7], None, note=" (frequencies = 1: frequency_vector is not used)")
     # T16 2x2 with a frequency vector and one standard: a single reflect leaves S cells unspecified (atom:s_matrix_incomplete_16,
     # state 2), a double reflect does not (state 3)
-    def ol2(l, den):
-        return "None" if l is None else "(Some [" + "; ".join("(Some ((%d) # %d))" % (v, den) for v in l) + "])"
     for st, s16 in ((2, True), (3, False)):
         for n, fvl, nfl, trl in ((1, None, [5], None), (1, None, [5], [1]), (2, [900, 3100], [5, 7], None), (2, [3100, 900], [5, 7], None),
-                                 (2, [1500, 3100], [5, 7], None), (1, None, [0], None), (3, None, [5, 7, 7], None), (2, None, [5, 7], None),
+                                 (2, [1500, 3100], [5, 7], None), (1, None, [0], None), (3, None, [5, 7], None), (2, None, [5, 7], None),
                                  (1, None, None, None), (0, None, [5], None), (1, None, None, [1])):
-            narrow = bool(fvl) and (fvl[0] > 1010 or fvl[-1] < 2970)
-            model = ("crun (env_set_m_error HOk (mknsum 4 2 2 3 true false (mknew [] 0 0 0 None)) (mkmerr %s %s %s %s %s %s)) "
-                     "gen_contract_vnacal_new_set_m_error" % (z(n), ol2(fvl, 1), ol2(nfl, 1000), ol2(trl, 1000), b(narrow), b(s16)))
-            fa = [1] + fvl if fvl else [0, 0, 0]
-            na = [1] + (nfl + [nfl[-1]])[:2] if nfl else [0, 0, 0]
-            ta = [1] + (trl + [trl[-1]])[:2] if trl else [0, 0, 0]
-            rows.append(Row("set_m_error", 0, [st, n] + fa + na + ta, model,
-                            "vnacal_new_set_m_error(frequencies=%d, frequency_vector=%s MHz, sigma_nf=%s/1000, sigma_tr=%s/1000) on a T16 "
-                            "2x2 with a %s standard" % (n, fvl, nfl, trl, "single reflect" if s16 else "double reflect")))
+            me_row(st, 4, 1, n, fvl, nfl, trl, s16=s16, note=" on a T16 2x2 with a %s standard" % ("single reflect" if s16 else "double reflect"))
     for h in (1, 2):
         rows.append(Row("set_m_error", h, [1, 1, 0, 0, 0, 1, 5, 5, 0, 0, 0],
-                        "crun (env_set_m_error %s %s (mkmerr 1 None (Some [Some (5 # 1000)]) None false false)) "
+                        "crun (env_set_m_error_x %s %s (mkmerrx 1 None (Some [XFin (5 # 1000)]) None false false)) "
                         "gen_contract_vnacal_new_set_m_error" % (HND[h], NSUM % "true"), "vnacal_new_set_m_error"))
     # ---- solve (precondition), add_calibration, precision
     for fvalid in (0, 1):
@@ -211,7 +245,8 @@ def gen_rows(ctx, info):
         args = [ncal, holes, ci, variant, fvnull, n, f0, f1, bnull, br, bc, bcell, ag, ar, ac, acell, outnull]
         rows.append(Row("apply", h, args, ("apply", args, HND[h]),
                         "vnacal_apply%s(ci=%d, frequency_vector=%s, frequencies=%d, %s %dx%d%s%s%s%s)"
-                        % ("_m" if variant == 0 else "", ci, "NULL" if fvnull else "[%d, %d] MHz" % (f0, f1), n,
+                        % ("_m" if variant == 0 else "", ci, "NULL" if fvnull else "[%s, %s] MHz" % tuple(
+                            {NAN: "NaN", PINF: "+inf", NINF: "-inf"}.get(x, x) for x in (f0, f1)), n,
                            "m" if variant == 0 else "b", br, bc, " NULL" if bnull else "", " with a NULL cell" if bcell else "",
                            (", a %dx%d%s" % (ar, ac, " with a NULL cell" if acell else "")) if ag and variant else "",
                            ", s_parameters=NULL" if outnull else "")))
@@ -222,7 +257,8 @@ def gen_rows(ctx, info):
                     base = dict(fvnull=0, n=2, f0=1500, f1=2500, bnull=0, br=dim, bc=dim, bcell=0, ag=variant, ar=dim, ac=dim, acell=0, outnull=0)
                     alts = [{}, {"fvnull": 1}, {"n": -1}, {"n": 0}, {"n": 1}, {"f0": 2500, "f1": 1500}, {"f0": 2000, "f1": 2000},
                             {"f0": 500}, {"f1": 4000}, {"n": 0, "f0": 500, "f1": 4000}, {"bnull": 1}, {"br": dim + 1}, {"bc": dim + 1},
-                            {"br": 0}, {"bcell": 1}, {"outnull": 1}, {"n": 1, "f0": 4000}, {"n": 1, "f0": 500}]
+                            {"br": 0}, {"bcell": 1}, {"outnull": 1}, {"n": 1, "f0": 4000}, {"n": 1, "f0": 500},
+                            {"f0": NAN}, {"f1": NAN}, {"n": 1, "f0": NAN}, {"f0": NINF}, {"f1": PINF}, {"n": 0, "f0": NAN}]
                     if variant:
                         alts += [{"ar": 1}, {"ar": dim + 1}, {"ac": dim + 1}, {"acell": 1}, {"ag": 0}]
                     if not thorough:
@@ -233,6 +269,26 @@ def gen_rows(ctx, info):
                         apply_row(ncal, holes, ci, variant, **d)
     for h in (1, 2):
         apply_row(1, 0, 0, 0, 0, 2, 1500, 2500, 0, 1, 1, 0, 0, 0, 0, 0, 0, h=h)
+    # ---- vector arguments of the parameter functions (not translated by contracts.py: documented column only)
+    usage = "CRefused VM1 (Via USAGE)"
+    pvs = [(1000, 2000, 3000), (0, 1, 2), (-1, 2000, 3000), (1000, 1000, 3000), (3000, 2000, 1000)]
+    for sp in (NAN, PINF, NINF):
+        pvs += [(sp, 2000, 3000), (1000, sp, 3000), (1000, 2000, sp)]
+    for fv in pvs:
+        rows.append(Row("make_vector", 0, list(fv), None, "vnacal_make_vector_parameter(frequency_vector=%s MHz)" % (fv,)))
+        rows[-1].doc = "if forallb xfreq_ok %s && xascending %s then CPass else %s" % (xlist(fv), xlist(fv), usage)
+    cvs = [(1000, 3000, 10, 20), (3000, 1000, 10, 20), (1000, 1000, 10, 20), (-1, 3000, 10, 20), (1000, 3000, 0, 20), (1000, 3000, 10, -1)]
+    for sp in (NAN, PINF, NINF):
+        cvs += [(sp, 3000, 10, 20), (1000, sp, 10, 20), (1000, 3000, sp, 20), (1000, 3000, 10, sp)]
+    for cv in cvs:
+        rows.append(Row("make_corr", 0, list(cv), None,
+                        "vnacal_make_correlated_parameter(sigma_frequency_vector=%s MHz, sigma_vector=%s/1000)" % (cv[:2], cv[2:])))
+        rows[-1].doc = ("if forallb xfreq_ok %s && xascending %s && forallb xsigma_pos %s then CPass else %s"
+                        % (xlist(cv[:2]), xlist(cv[:2]), xlist(cv[2:], 1000), usage))
+    for f in (2000, 1000, 3000, 500, 4000, -5, NAN, PINF, NINF):
+        ok = fin(f) and 990 <= f <= 3030
+        rows.append(Row("get_pv", 0, [f], None, "vnacal_get_parameter_value(vector parameter 1000..3000 MHz, %s MHz)" % f))
+        rows[-1].doc = "CPass" if ok else "CRefused VHUGE (Via USAGE)"
     return rows
 
 
@@ -250,6 +306,8 @@ def doc_term(row, res):
     bad = "CRefused %s (Direct E_INVAL)" % fv
     if row.h != 0 and not (row.func == "solve" and row.h == 2):
         return bad
+    if row.doc is not None:
+        return row.doc
     usage = "CRefused %s (Via USAGE)" % fv
     if row.func == "new_alloc":
         return "lift (check_new_alloc %s %s %s %s)" % (z(a[0]), z(a[1]), z(a[2]), z(a[3]))
@@ -278,8 +336,7 @@ def doc_term(row, res):
         return "if get_valid %s %s %s then CPass else %s" % (b(a[0] in (5, 6)), tb, z(a[3]), bad)
     if row.func == "prop":
         return "if property_ci_valid %s %s then CPass else %s" % (tb, z(a[3]), bad)
-    m = re.search(r"\(mkapp .*\)\) gen_contract", model_term(row, res))
-    return "if apply_valid %s %s then CPass else %s" % (tb, m.group(0)[:-len(") gen_contract")], usage)
+    return model_term(row, res, doc=True)
 
 
 def table_term(tab):
@@ -295,8 +352,10 @@ def table_term(tab):
     return "[" + "; ".join(out) + "]"
 
 
-def model_term(row, res):
+def model_term(row, res, doc=False):
     m = row.model
+    if m is None:
+        return doc_term(row, res)
     if isinstance(m, str):
         return m
     tb = table_term(res.get("tab", "empty"))
@@ -306,13 +365,19 @@ def model_term(row, res):
         return "crun (env_get %s %s %s) gen_contract_vnacal_property_%s" % (m[3], tb, z(m[2]), PROPS[m[1]])
     a = m[1]
     ncal, holes, ci, variant, fvnull, n, f0, f1, bnull, br, bc, bcell, ag, ar, ac, acell, outnull = a
-    last = f1 if n >= 2 else f0
-    notasc = n >= 2 and f0 >= f1
-    below = f0 < 900
-    above = last > 3100
+    def num(v):
+        return float("nan") if v == NAN else float("inf") if v == PINF else float("-inf") if v == NINF else float(v)
+    used = [num(f0), num(f1)][:max(0, min(n, 2))]
+    fnan = any(x != x for x in used)
+    notasc = len(used) == 2 and used[0] >= used[1]
+    below = bool(used) and used[0] < 900
+    above = bool(used) and used[-1] > 3100
     aopt = "(Some (%s, %s))" % (z(ar), z(ac)) if (variant == 1 and ag) else "None"
-    return ("crun (env_apply %s %s (mkapp %s %s %s %s %s %s %s %s %s %s %s %s %s)) gen_contract_vnacal_apply_common"
-            % (m[2], tb, z(ci), b(fvnull), z(n), b(notasc), b(below), b(above), b(bnull), z(br), z(bc), b(bcell), aopt, b(acell), b(outnull)))
+    if doc:
+        return ("if apply_valid_with true %s (mkapp %s %s %s %s %s %s %s %s %s %s %s %s %s %s) then CPass else CRefused VM1 (Via USAGE)"
+                % (tb, z(ci), b(fvnull), z(n), b(fnan), b(notasc), b(below), b(above), b(bnull), z(br), z(bc), b(bcell), aopt, b(acell), b(outnull)))
+    return ("crun (env_apply %s %s (mkapp %s %s %s %s %s %s %s %s %s %s %s %s %s %s)) gen_contract_vnacal_apply_common"
+            % (m[2], tb, z(ci), b(fvnull), z(n), b(fnan), b(notasc), b(below), b(above), b(bnull), z(br), z(bc), b(bcell), aopt, b(acell), b(outnull)))
 
 
 PRELUDE = """Require Import String List ZArith QArith Bool.
@@ -441,7 +506,8 @@ def run_tie(ctx, broken, info):
     terms = []
     for row in rows:
         r = res.get(row.id, {"crash": {"kind": "fault", "error": "no result", "function": None}})
-        terms.append(doc_term(row, r if "crash" not in r else {}) if doc_only else model_term(row, r if "crash" not in r else {}))
+        terms.append(doc_term(row, r if "crash" not in r else {}) if (doc_only or row.model is None)
+                     else model_term(row, r if "crash" not in r else {}))
     for row in rows:
         r = res.get(row.id, {"crash": {"kind": "fault", "error": "no result", "function": None}})
         terms.append(doc_term(row, r if "crash" not in r else {}))
@@ -504,7 +570,7 @@ def run_tie(ctx, broken, info):
         ctx.count(key if code not in (0, 1) else None)
         ctx.traces_validated += 1
         fired.setdefault(row.func, set()).add(code)
-        probs = compare(row, code, r)
+        probs = compare(row, code, r) if row.model is not None else []
         if probs:
             bad.append((row, code, r, probs))
     if doc_only:
